@@ -36,8 +36,24 @@ Modularity(g, fam, weighted, res) ==
 
 FamSet(fam) == {Range(fam[i]) : i \in DOMAIN fam}
 
-(* -1 / 0 / 1 : comparison of rationals with positive denominators *)
-RatLeq(a, b) == a[1] * b[2] <= b[1] * a[2]
+(* a <= b for rationals with positive denominators, without cross-multiplying (TLC's integers are
+   32-bit and modularity denominators reach 4 m^2 rd): compare integer parts, then the reciprocals of
+   the fractional parts (Euclid) *)
+RECURSIVE RatLeqNN(_, _, _, _)
+RatLeqNN(p1, q1, p2, q2) ==                     \* p1/q1 <= p2/q2, all >= 0, q1, q2 > 0
+  LET i1 == p1 \div q1
+      i2 == p2 \div q2
+      r1 == p1 % q1
+      r2 == p2 % q2
+  IN IF i1 # i2 THEN i1 < i2
+     ELSE IF r1 = 0 THEN TRUE
+     ELSE IF r2 = 0 THEN FALSE
+     ELSE RatLeqNN(q2, r2, q1, r1)
+RatLeq(a, b) ==
+  IF a[1] < 0 /\ b[1] >= 0 THEN TRUE
+  ELSE IF a[1] >= 0 /\ b[1] < 0 THEN FALSE
+  ELSE IF a[1] >= 0 THEN RatLeqNN(a[1], a[2], b[1], b[2])
+  ELSE RatLeqNN(-b[1], b[2], -a[1], a[2])
 
 PartitionChecks(g, a) ==
   <<
@@ -90,6 +106,6 @@ LouvainChecks(g, a) ==
         LET r == a.runs[i] IN
         (r.ans.e = "" /\ r.comm.e = "" /\ Len(r.ans.v) >= 1) => FamSet(r.comm.v) = FamSet(r.ans.v[Len(r.ans.v)])>>,
     <<"returns_ok_on_graphs_with_edges", \A i \in DOMAIN a.runs :
-        Keys(g) # {} => a.runs[i].ans.e \in {"", "Hang", "Panic"}>>
+        Keys(g) # {} => a.runs[i].ans.e \in {"", "Hang", "Panic", "NotRun"}>>   \* NotRun: after five hangs of this run
   >>
 =============================================================================
